@@ -21,7 +21,7 @@ pub const C25: Check = Check {
            updates (serial jumps), starts a new session, changes nothing (304 / same serial), shortens its delta list, or re-serves an \
            earlier notification of the same session (stale front end), and renders its documents with 0-2 faults (HTTP errors, broken or \
            truncated XML, wrong snapshot/delta file hash, wrong session/serial inside a file, wrong object hash early or late in a \
-           delta, gapped / duplicated / mutated delta list, missing ETag). After every step the real RRDP collector runs \
+           delta, gapped / duplicated / mutated delta list, missing ETag); a third of the sequences run with max-object-size 768 / 992 / 1536 / 3072 and objects up to 5 kB. After every step the real RRDP collector runs \
            load_repository once on the same cache. Oracle: if the result is Updated, the archive's objects (full iteration) and \
            its recorded (session, serial) must equal the state the server notified; otherwise nothing is required of the copy. \
            distinct = (server op, fault, outcome, previous outcome) classes",
@@ -40,6 +40,10 @@ const HOST: &str = "h.rpki.test";
 fn uri_of(i: usize) -> String { format!("rsync://{HOST}/repo/dir{}/o{i}.bin", i % 2) }
 
 fn mutate_objects(rng: &mut Rng, objs: &BTreeMap<String, Vec<u8>>, counter: &mut u64) -> BTreeMap<String, Vec<u8>> {
+    mutate_objects_sized(rng, objs, counter, false)
+}
+
+fn mutate_objects_sized(rng: &mut Rng, objs: &BTreeMap<String, Vec<u8>>, counter: &mut u64, big: bool) -> BTreeMap<String, Vec<u8>> {
     let mut new = objs.clone();
     let n = 1 + rng.usize(3);
     for _ in 0..n {
@@ -49,7 +53,7 @@ fn mutate_objects(rng: &mut Rng, objs: &BTreeMap<String, Vec<u8>>, counter: &mut
         else {
             *counter += 1;
             let mut c = format!("content#{}-of-o{i}-", *counter).into_bytes();
-            let big = rng.chance(1, 8); let pad = rng.usize(if big { 5000 } else { 60 });
+            let large = rng.chance(1, if big { 3 } else { 8 }); let pad = rng.usize(if large { 5000 } else { 60 });
             c.extend((0..pad).map(|k| (k % 251) as u8));
             new.insert(u, c);
         }
@@ -137,11 +141,15 @@ fn run_c25(ctx: &mut Ctx, rep: &mut Report) {
         fake.clear();
         fake.configure(&mut config);
         config.rrdp_max_delta_count = *rng.pick(&[100usize, 100, 3]);
+        // an object size limit in a third of the sequences, at values where a chunked reader's cumulative position can
+        // land exactly on the limit; objects above it make the update fail, they are never stored cut short
+        let limit: Option<u64> = *rng.pick(&[None, None, None, None, Some(768u64), Some(1536), Some(992), Some(3072)]);
+        config.max_object_size = limit;
         config.rrdp_fallback_time = Duration::from_secs(3600);
         let mut coll = match RrdpCollector::new(&config) { Ok(Some(c)) => c, _ => { rep.inconclusive("collector init failed"); return } };
         if coll.ignite().is_err() { rep.inconclusive("collector ignite failed"); return }
         let mut srv = RrdpServer::new(HOST, 0x5000 + (ctx.seed & 0xfff) * 1000 + (ctx.shard as u64) * 100 + seq as u64);
-        srv.objects = mutate_objects(&mut rng, &BTreeMap::new(), &mut counter);
+        srv.objects = mutate_objects_sized(&mut rng, &BTreeMap::new(), &mut counter, limit.is_some());
         let mut head = srv.clone();
         let mut past: Vec<RrdpServer> = Vec::new();
         let mut trace: Vec<serde_json::Value> = Vec::new();
@@ -157,8 +165,8 @@ fn run_c25(ctx: &mut Ctx, rep: &mut Report) {
                 srv = last_good.clone().unwrap(); "revert-to-last-fetched".to_string()
             } else {
                 match rng.usize(12) {
-                    0..=5 | 10 => { let many = rng.chance(1, 4); let k = 1 + rng.usize(if many { 4 } else { 1 }); srv = head.clone(); if rng.chance(1, 6) { srv.list_deltas = 20; } for _ in 0..k { let n = mutate_objects(&mut rng, &srv.objects, &mut counter); srv.update(n); } head = srv.clone(); format!("update-x{k}") }
-                    6 => { srv = head.clone(); srv.new_session(0x9000 + counter); counter += 1; srv.objects = mutate_objects(&mut rng, &srv.objects, &mut counter); head = srv.clone(); "new-session".into() }
+                    0..=5 | 10 => { let many = rng.chance(1, 4); let k = 1 + rng.usize(if many { 4 } else { 1 }); srv = head.clone(); if rng.chance(1, 6) { srv.list_deltas = 20; } for _ in 0..k { let n = mutate_objects_sized(&mut rng, &srv.objects, &mut counter, limit.is_some()); srv.update(n); } head = srv.clone(); format!("update-x{k}") }
+                    6 => { srv = head.clone(); srv.new_session(0x9000 + counter); counter += 1; srv.objects = mutate_objects_sized(&mut rng, &srv.objects, &mut counter, limit.is_some()); head = srv.clone(); "new-session".into() }
                     7 | 8 => "no-change".into(),
                     9 => { srv = head.clone(); srv.list_deltas = 1 + rng.usize(3); head = srv.clone(); "short-delta-list".into() }
                     _ => {
@@ -188,7 +196,8 @@ fn run_c25(ctx: &mut Ctx, rep: &mut Report) {
             trace.push(json!({"step": step, "server_op": op, "faults": fname, "server": {"session": srv.session, "serial": srv.serial, "objects": srv.objects.len()}, "requests": reqs, "outcome": outcome}));
             let not_modified = reqs.len() == 1 && faults.notify_status.is_none();
             let how = if outcome != "updated" { "" } else if not_modified { "/via-304" } else if reqs.iter().any(|r| r.ends_with("snapshot.xml")) { "/via-snapshot" } else if reqs.iter().any(|r| r.ends_with("delta.xml")) { "/via-deltas" } else { "/via-same-serial" };
-            rep.class(format!("{op}|{fname}|{outcome}{how}|prev:{prev_outcome}"));
+            rep.class(format!("{op}|{fname}|{outcome}{how}|prev:{prev_outcome}|limit{}", limit.is_some() as u8));
+            if limit.is_some() && srv.objects.values().any(|o| o.len() as u64 > limit.unwrap()) { rep.count(&format!("steps_with_object_above_limit_{outcome}"), 1); }
             rep.count(&format!("outcome_{outcome}"), 1);
             if let Ok(RrdpLoadResult::Updated(repo)) = &res {
                 drop(repo.clone());
@@ -215,7 +224,7 @@ fn run_c25(ctx: &mut Ctx, rep: &mut Report) {
                 rep.violation(format!("C25/run-failed-on-server-behaviour/{}", fname.split('+').next().unwrap_or("")), format!(
                     "load_repository returned a run failure (aborting the whole validation run) instead of reporting the repository as not updated; server op {op}, faults {fname}, previous outcome {prev_outcome}"),
                     json!({"trace": trace, "seed": ctx.seed, "shard": ctx.shard, "sequence": seq}));
-            } else if fname == "none" || fname == "no-etag" {
+            } else if (fname == "none" || fname == "no-etag") && limit.map(|l| srv.objects.values().all(|o| o.len() as u64 <= l) && srv.deltas.iter().all(|d| d.publishes.iter().all(|p| p.1.len() as u64 <= l))).unwrap_or(true) {
                 rep.count("healthy_step_not_updated", 1);
                 if rep.samples.len() < 4 { rep.sample(json!({"healthy_step_not_updated": trace.last()})); }
             }
